@@ -70,13 +70,16 @@ Proof. induction ns as [|n ns IH]; intros s; simpl; [reflexivity|]. apply IH. Qe
 
 Lemma fstep_exec s o : exists os, F.rs (fst (F.fstep s o)) = M.exec (F.rs s) os.
 Proof.
-  destruct o as [mp n nbs|t ok|mp ok1 r|mp|mp|mp|n|n]; cbn [F.fstep].
+  destruct o as [mp n vok nbs|t ok|mp ok1 r|mp|mp|mp|n|n]; cbn [F.fstep].
   - exists (map M.RStart (n :: nbs)). cbn [fst F.rs]. apply starts_exec.
   - destruct (M.step (F.rs s) (M.RStep t ok)) as [r e] eqn:E. cbn [fst].
     assert (Hr : r = M.exec (F.rs s) [M.RStep t ok]) by (unfold M.exec; cbn [fold_left]; rewrite E; reflexivity).
     unfold F.after_ret. destruct e; try (exists [M.RStep t ok]; exact Hr).
-    destruct (nth_error (F.roles s) t) as [[mp|]|]; try (exists [M.RStep t ok]; exact Hr).
-    exists [M.RStep t ok; M.Done (length (M.uh (F.rs s)))]. cbn [F.rs]. rewrite Hr. reflexivity.
+    destruct (nth_error (F.roles s) t) as [[mp [|]|]|];
+      [exists [M.RStep t ok]; exact Hr
+      |exists [M.RStep t ok; M.Done (length (M.uh (F.rs s)))]; cbn [F.rs]; rewrite Hr; reflexivity
+      |exists [M.RStep t ok; M.Done (length (M.uh (F.rs s)))]; cbn [F.rs]; rewrite Hr; reflexivity
+      |exists [M.RStep t ok]; exact Hr].
   - destruct (F.lookup mp (F.mnts s)) as [u|]; [|exists []; reflexivity].
     destruct (F.check_ev (F.rs s) u ok1); try (exists []; reflexivity);
       (destruct (M.step (F.rs s) (M.Refresh u r)) as [r1 e] eqn:E; exists [M.Refresh u r]; unfold M.exec; cbn [fold_left fst F.rs]; rewrite E; reflexivity).
@@ -133,7 +136,7 @@ Qed.
 
 Lemma fstep_FI s o : FI s -> FI (fst (F.fstep s o)).
 Proof.
-  intros I. destruct o as [mp n nbs|t ok|mp ok1 r|mp|mp|mp|n|n]; cbn [F.fstep].
+  intros I. destruct o as [mp n vok nbs|t ok|mp ok1 r|mp|mp|mp|n|n]; cbn [F.fstep].
   - cbn [fst]. apply (FI_same_uh s); [exact I| |tauto|apply (f_inj _ I)].
     rewrite starts_exec. assert (E : forall l s0, M.uh (M.exec s0 (map M.RStart l)) = M.uh s0).
     { induction l as [|a l IH]; intros s0; [reflexivity|]. change (M.exec s0 (map M.RStart (a :: l))) with (M.exec (fst (M.step s0 (M.RStart a))) (map M.RStart l)). rewrite IH. reflexivity. }
@@ -147,7 +150,7 @@ Proof.
       set (u := length (M.uh (F.rs s))).
       assert (Hold : forall m u', In (m, u') (F.mnts s) -> u' < u).
       { intros m u' Hin. destruct (f_held _ I m u' Hin) as [h' Hh']. eapply nth_some_lt; eauto. }
-      destruct (nth_error (F.roles s) t) as [[mp|]|].
+      destruct (nth_error (F.roles s) t) as [[mp [|]|]|].
       * constructor; cbn.
         -- intros m u' [Eq|Hin].
            ++ inversion Eq; subst. exists h. rewrite Happ. rewrite nth_error_app2 by (unfold u; lia). unfold u. rewrite Nat.sub_diag. reflexivity.
@@ -156,6 +159,10 @@ Proof.
         -- constructor; [|apply unreg_nodup; apply (f_inj _ I)].
            intros Hin. apply in_map_iff in Hin. destruct Hin as ([m u'] & Eu & Hin). simpl in Eu. subst u'.
            apply unreg_in in Hin. destruct Hin as [Hin _]. specialize (Hold m u Hin). lia.
+      * constructor; cbn; [|apply (f_inj _ I)]. intros m u' Hin. cbn [M.step fst]. rewrite release_uh, Happ.
+        rewrite nth_error_app2 by (unfold u; lia). unfold u at 1. rewrite Nat.sub_diag. cbn.
+        specialize (Hold m u' Hin). destruct (f_held _ I m u' Hin) as [h' Hh']. exists h'.
+        rewrite nth_upd_ne by (unfold u in *; lia). rewrite nth_error_app1 by exact Hold. exact Hh'.
       * constructor; cbn; [|apply (f_inj _ I)]. intros m u' Hin. cbn [M.step fst]. rewrite release_uh, Happ.
         rewrite nth_error_app2 by (unfold u; lia). unfold u at 1. rewrite Nat.sub_diag. cbn.
         specialize (Hold m u' Hin). destruct (f_held _ I m u' Hin) as [h' Hh']. exists h'.
@@ -247,9 +254,9 @@ Section Closed.
 
   Lemma cfstep_closed s o : P s -> P (fst (F.cfstep s o)).
   Proof.
-    intros Hs. destruct o as [mp n nbs scs|o]; cbn [F.cfstep]; [|apply HP; exact Hs].
+    intros Hs. destruct o as [mp n vok nbs scs|o]; cbn [F.cfstep]; [|apply HP; exact Hs].
     destruct (F.run_all _ _ scs) as [s2 es] eqn:E. cbn [fst].
-    replace s2 with (fst (F.run_all (fst (F.fstep s (F.FMount mp n nbs))) (length (M.thrs (F.rs s))) scs)) by (rewrite E; reflexivity).
+    replace s2 with (fst (F.run_all (fst (F.fstep s (F.FMount mp n vok nbs))) (length (M.thrs (F.rs s))) scs)) by (rewrite E; reflexivity).
     apply run_all_closed. apply HP. exact Hs.
   Qed.
 End Closed.
